@@ -47,6 +47,7 @@ type Profile struct {
 	PEscrow        int      // percent of stream creations / bank sends aimed at a module account (gov, the two escrows), lower or upper case
 	PRetry         int      // percent of record/purchase operations that retry an earlier rolled-back attempt (same party, same identifier)
 	PForward       int      // percent of follow-up messages after a registration that use that registration (forward reference)
+	PMultiTarget   int      // percent of txs starting with a storage purchase that go on purchasing for other targets (neighbours, nonexistent ones)
 	NodeMinGas     bool     // the node may have a minimum-gas-prices setting (mempool policy), and CheckTx-only txs vary their gas limit
 	RegDenomMix    bool     // genesis: the WRKChain / BEACON fee denomination may differ from the enterprise denomination
 	PReimport      int      // percent of blocks (after the first) before which the network is restarted from an exported genesis
@@ -531,8 +532,14 @@ func GenScenario(t *rapid.T, p *Profile) *Scenario {
 			if p.MaxOps > 1 && pct(t, multi, "multi") {
 				nops = uniRange(t, 2, p.MaxOps, "nOps")
 			}
+			multiTarget := false
 			for j := 0; j < nops; j++ {
 				kind := pickKind(t, p.Weights)
+				if j == 0 && (kind == WrkPur || kind == BcnPur) && p.PMultiTarget > 0 && p.MaxOps > 1 && pct(t, p.PMultiTarget, "multiTarget") {
+					// one transaction purchasing storage for several targets (the slot pre-check groups the messages by target)
+					multiTarget = true
+					nops = uniRange(t, 2, 4, "multiTargetN")
+				}
 				if j > 0 && (tx.Ops[0].Kind == WrkReg || tx.Ops[0].Kind == BcnReg) && pct(t, p.PForward, "forwardRef") {
 					// register; then use the registration made earlier in the same transaction (forward reference
 					// to the identifier it will receive) - whether the tx then commits or is rolled back
@@ -551,12 +558,20 @@ func GenScenario(t *rapid.T, p *Profile) *Scenario {
 					}
 					continue
 				}
+				if j > 0 && multiTarget {
+					op := GenOp(t, p, tx.Ops[0].Kind, nAcc)
+					op.Actor, op.Named, op.Peer, op.Upper = tx.Ops[0].Actor, tx.Ops[0].Named, tx.Ops[0].Peer, tx.Ops[0].Upper
+					op.Ref = pick(t, []int{tx.Ops[0].Ref + 1, tx.Ops[0].Ref + 2, tx.Ops[0].Ref, -1, -1}, "multiTargetRef")
+					tx.Ops = append(tx.Ops, op)
+					continue
+				}
 				if j > 0 && pct(t, p.PSameKind, "sameKind") {
 					// the same operation again on the same target by the same party (per-message accumulation paths)
 					op := GenOp(t, p, tx.Ops[0].Kind, nAcc)
 					op.Actor, op.Named, op.Ref, op.Peer, op.Upper = tx.Ops[0].Actor, tx.Ops[0].Named, tx.Ops[0].Ref, tx.Ops[0].Peer, tx.Ops[0].Upper
 					if oneIn(t, 3, "otherTarget") {
-						op.Ref = tx.Ops[0].Ref + 1
+						// ... or on a neighbouring target, or on one that does not exist
+						op.Ref = pick(t, []int{tx.Ops[0].Ref + 1, tx.Ops[0].Ref + 1, -1}, "otherTargetRef")
 					}
 					tx.Ops = append(tx.Ops, op)
 					continue
